@@ -332,6 +332,7 @@ func (e *Evidence) write(path string) error {
 			"blocking_sync_in_tree":                                      e.build.Desc.BlockingSync,
 			"non_sentinel_package_vars":                                  e.build.Desc.PkgVars,
 			"runs_repeated_alone_in_a_fresh_process_O8":                  e.AloneChecked,
+			"instrumentation_fallback":                                   e.build.FallbackNote,
 			"calibration_hot_kinds_and_units_hex":                        e.build.Hot,
 			"worker_cpu_s":                                               e.workerS,
 			"slowest_batch_s":                                            e.slowest,
